@@ -40,7 +40,7 @@ class EvalMixin:
             t = self.c.ghostmaps[name]
             srt = R if t == 'real' else (B if t == 'bool' else I)
             if t not in ('int', 'bool', 'real'): t = self.resolve_type(t)
-            return (('ghostmap', 'ghost:' + name, srt, t), 'ghostmap')
+            return (('ghostmap', 'ghost:' + name, srt, t, env['st']), 'ghostmap')   # the map of *this* state: old(m)[i] reads the old map at a new index
         c = self.const(name)
         if c is not None: return c
         for g, gt in self.p.globals.items():
@@ -123,7 +123,7 @@ class EvalMixin:
             if isinstance(v, Loc) and v.arrlen is not None:
                 return (self.load_loc(st, Loc(v.key, v.idx + (i,), v.t), facts=False), v.t)
             if isinstance(v, tuple) and v[0] == 'ghostmap':
-                return (st.rd(v[1], (i,), v[2]), v[3])
+                return (v[4].rd(v[1], (i,), v[2]), v[3])
             raise Unsupported('index of %r' % (v,))
         if k == 'slice':
             v, t = self.ev(a[1], env)
